@@ -207,6 +207,22 @@ def run(seed: int, params: dict, replay: dict | None = None) -> dict:
                 if e["status"] == "RUNNING_RECOVERY":
                     st["probe.recovered_running"] = st.get("probe.recovered_running", 0) + 1
             inflight = False
+            # is a recovery core task itself held by the dead runner?  (its TASK-level running
+            # concurrency then turns every later instance into CONCURRENCY_CONTROLLED_FINAL)
+            blocked_service = {"PENDING": False, "RUNNING": False}
+            last_by_inv: dict[str, dict] = {}
+            for e in sorted(w.tlog, key=lambda e: (e["ts"], e["seq"])):
+                last_by_inv[e["inv"]] = e
+            for inv_, e in last_by_inv.items():
+                if e["status"] in ("PENDING", "RUNNING") and victim == "r1" and e["owner"] == r1.runner_id:
+                    try:
+                        fname = app.state_backend.get_invocation(inv_).task.task_id.func_name
+                    except Exception:  # noqa: BLE001
+                        continue
+                    if fname == "recover_pending_invocations":
+                        blocked_service["PENDING"] = True  # nobody can rescue PENDING work any more
+                    if fname == "recover_running_invocations":
+                        blocked_service["RUNNING"] = True
             for inv in accepted:
                 rec = app.orchestrator.get_invocation_status_record(inv)
                 s, o = rec.status.name, rec.runner_id
@@ -227,6 +243,8 @@ def run(seed: int, params: dict, replay: dict | None = None) -> dict:
                 elif s in ("KILLED", "CONCURRENCY_CONTROLLED", "PENDING_RECOVERY", "RUNNING_RECOVERY"):
                     cls = "status-written-not-requeued"
                     st["probe.status_written_not_requeued_at_crash"] = st.get("probe.status_written_not_requeued_at_crash", 0) + 1
+                elif s in ("PENDING", "RUNNING") and dead_owner and blocked_service[s]:
+                    cls = "recovery-task-held-by-dead-runner-blocks-recovery"
                 elif s in ("PENDING", "RUNNING") and dead_owner:
                     cls = "held-by-dead-runner-not-recovered"
                 elif s in AVAILABLE and queued:
